@@ -2095,7 +2095,10 @@ fn check_definition<'a>(
     let mut variables = HashSet::new();
     free_variables(&definitions[current_index].2, 0, &mut variables);
 
-    // For each free variable bound by the let, check the corresponding definition.
+    // For each free variable bound by the let, check the corresponding definition. We visit the
+    // variables in a fixed order so the diagnostics are reported deterministically.
+    let mut variables = variables.into_iter().collect::<Vec<_>>();
+    variables.sort_unstable();
     for variable in variables {
         if variable < definitions.len() {
             // Compute this once rather than multiple times.
